@@ -29,7 +29,13 @@ def main():
         print("refusing: /repo is dirty:\n" + st)
         return 2
     try:
-        if spec[0] == "--patch":
+        if spec[0] == "--revert":
+            d = subprocess.run(["git", "-C", REPO, "show", spec[1]], capture_output=True, text=True).stdout
+            r = subprocess.run(["git", "-C", REPO, "apply", "-R", "-"], input=d, text=True)
+            if r.returncode != 0:
+                print("cannot revert", spec[1])
+                return 2
+        elif spec[0] == "--patch":
             r = subprocess.run(["git", "-C", REPO, "apply", os.path.abspath(spec[1])])
             if r.returncode != 0:
                 print("patch does not apply")
